@@ -249,6 +249,10 @@ func (p *Prog) atoms(e ast.Expr, val bool, env *Env, frozen map[types.Object]boo
 		if (x.Op == token.LAND && val) || (x.Op == token.LOR && !val) {
 			return append(p.atoms(x.X, val, env, frozen, depth+1), p.atoms(x.Y, val, env, frozen, depth+1)...)
 		}
+	case *ast.CallExpr:
+		// a boolean helper of the module: what its answer implies
+		out := []Atom{{E: e, Val: val, Env: env, Frozen: frozen}}
+		return append(out, p.impliedByCall(x, val, env, depth)...)
 	case *ast.Ident:
 		out := []Atom{{E: e, Val: val, Env: env, Frozen: frozen}}
 		if o := p.ObjOf(x); o != nil {
